@@ -154,3 +154,16 @@ func VerifTransition(p *Protocol, m Message) error { return p.transitionState(m)
 
 const VerifMaxMessagesPerSegment = maxMessagesPerSegment
 const VerifMaxReadBufferSize = maxReadBufferSize
+
+// VerifMakeSendQueue gives a Protocol that was not started the send queue Start() creates,
+// so that the real SendMessage queues messages (the loops are not running).
+func VerifMakeSendQueue(p *Protocol) { p.sendQueueChan = make(chan outboundMessage, 80) }
+
+// VerifTakeSent removes and returns the oldest queued outbound message (nil if none).
+func VerifTakeSent(p *Protocol) Message {
+	if len(p.sendQueueChan) == 0 {
+		return nil
+	}
+	m := <-p.sendQueueChan
+	return m.message
+}
